@@ -271,23 +271,33 @@ def c04_adaptation(out, tier, seed):
             if not first_use:
                 ctx.assume(eps.z() > 0)
             pos = [ctx.fresh_real("p") for _ in range(2)]
-            me = nuts_chain_struct(eng, epsilon=eps, m=ctx.fresh_int("m"), n_collect=0, n_discard=0, mu=ctx.fresh_real("mu"),
+            mu0 = ctx.fresh_real("mu")
+            hb0, eb0, m0 = ctx.fresh_real("h_bar"), ctx.fresh_real("epsilon_bar"), ctx.fresh_int("m")
+            me = nuts_chain_struct(eng, epsilon=eps, m=m0, n_collect=0, n_discard=0, mu=mu0, h_bar=hb0, epsilon_bar=eb0,
                                    position=tensor(pos), rng=Opaque("rng"))
             r = eng.call_fn(init_name, [Ref.to(me), 3, 2])
-            return eps, pos, me, r, calls["n"]
+            return eps, pos, me, r, calls["n"], mu0, hb0, eb0, m0
         for ctx, res in eng.explore(run_init):
             u.paths += 1
             if isinstance(res, Exception):
                 out.inconclusive.append("c04 init_chain: %r" % (res,))
                 continue
-            eps, pos, me, r, ncalls = res
+            eps, pos, me, r, ncalls, mu0, hb0, eb0, m0 = res
             if first_use:
                 u.holds(ctx, "first use: the step size is chosen by the doubling/halving heuristic, exactly once", ncalls == 1)
             else:
                 u.holds(ctx, "later runs keep the adapted step size (heuristic not called again)", ncalls == 0)
                 u.equal(ctx, "later runs keep the adapted step size (heuristic not called again)", me.get("epsilon"), eps)
-            u.equal(ctx, "shrinkage point mu = ln(10 * epsilon0)", me.get("mu"), ln(Num(10) * me.get("epsilon")))
+            if first_use:
+                u.equal(ctx, "shrinkage point mu = ln(10 * epsilon0), epsilon0 from the heuristic at the start point", me.get("mu"),
+                        ln(Num(10) * me.get("epsilon")), lambda mo: replay_mu())
+            else:
+                u.equal(ctx, "the shrinkage point stays ln(10 * epsilon0) on later runs (it is not recomputed from the adapted step size)",
+                        me.get("mu"), mu0, lambda mo: replay_mu())
             u.holds(ctx, "run lengths are stored for the adaptation switch", me.get("n_collect") == 3 and me.get("n_discard") == 2)
+            u.holds(ctx, "starting a run leaves the accumulated adaptation state alone (H-bar, averaged iterate, warm-up counter persist across runs)",
+                    z3.And(me.get("h_bar").z() == hb0.z(), me.get("epsilon_bar").z() == eb0.z(), zint_eq(me.get("m"), m0)),
+                    lambda mo: replay_mu())
             smp = r.fields[1]
             u.holds(ctx, "result buffer has shape [n_collect, dim]", tuple(smp.a.shape) == (3, 2))
             for i in range(2):
@@ -309,6 +319,13 @@ def exp_positive(e):
             out.append(t > 0)
         stack.extend(t.children())
     return out
+
+
+def replay_mu():
+    case = {"case": "nuts_mu_persist"}
+    nat = native(case)
+    bad = [p for p, r in nat.items() if isinstance(r, dict) and (r.get("panic") or r.get("mu_first_is_ln_10_eps0") is False or r.get("mu_unchanged_on_second_run") is False)]
+    return bool(bad), {"case": case, "native": nat, "reproduced_in": bad}
 
 
 def zint_eq(a, b):
@@ -437,7 +454,7 @@ def RP_ADAPT(model):
 def c03_build_tree(out, tier, seed):
     eng = mir_load.load_engine()
     mirsym.MUL_MODE["mode"] = "uf"
-    depths = [0, 1] if tier == "quick" else [0, 1, 2]
+    depths = [0, 1, 2] if tier == "quick" else [0, 1, 2, 3]
     dims = [1, 2] if tier == "quick" else [1, 2, 3]
     u = MUnit(out, "C03", "c03_build_tree", eng,
               functions=["nuts::build_tree (recursion executed at concrete depth)", "nuts::leapfrog", "nuts::stop_criterion"],
@@ -450,7 +467,7 @@ def c03_build_tree(out, tier, seed):
     try:
         for dim in dims:
             for j in depths:
-                if dim == 3 and j == 2:
+                if (dim == 3 and j >= 2) or (dim == 2 and j >= 3) or (tier == "quick" and dim == 2 and j == 2):
                     continue
                 for v in (-1, 1):
                     _build_tree_config(eng, u, out, dim, j, v)
@@ -775,3 +792,75 @@ def replay_nuts_seed():
         if bad:
             return True, {"case": case, "native": nat, "reproduced_in": bad}
     return False, {"tried": tried}
+
+
+def c07_nuts_hidden_randomness(out, tier, seed):
+    """every draw of a NUTS transition comes from the chain's own generator (no thread-local / process-global stream)"""
+    eng = mir_load.load_engine()
+    mirsym.MUL_MODE["mode"] = "uf"
+    u = MUnit(out, "C07", "c07_nuts_hidden_randomness", eng, functions=["NUTSChain::step", "nuts::build_tree"],
+              bounds=["dimension 1, 2 doublings; every path"],
+              assumptions=["draws through rand::rng() / rand::random / Tensor::random are logged as 'global', draws through a SmallRng as the chain's own"],
+              out_of_scope=["thread schedules"])
+    try:
+        T, paths = _nuts_step_paths(eng, 1, 2, False)
+        n = 0
+        for ctx, res in paths:
+            u.paths += 1
+            if isinstance(res, Exception):
+                out.inconclusive.append("c07_nuts_hidden_randomness: %r" % (res,))
+                continue
+            n += 1
+            kinds = [k for k, _ in res[3]]
+            u.holds(ctx, "a NUTS transition uses no randomness other than the chain's own seeded generator",
+                    not any(k.startswith("global") for k in kinds), RP_TREE, str(kinds))
+        u.reached("NUTS transition paths", n)
+    finally:
+        mirsym.MUL_MODE["mode"] = "exact"
+    u.done()
+
+
+def c08_nuts_streams(out, tier, seed):
+    """NUTS chains are driven by distinct streams: unseeded -- every chain's generator comes from its own OS-entropy request
+    (not a clone of another chain's); seeded -- pairwise distinct seeds for every 64-bit seed."""
+    eng = mir_load.load_engine()
+    n = 3 if tier == "quick" else 5
+    u = MUnit(out, "C08", "c08_nuts_streams", eng, functions=["NUTS::new (+ closure)", "NUTSChain::new", "NUTS::set_seed"],
+              bounds=["%d chains; seed symbolic over all of u64" % n],
+              assumptions=["SmallRng::from_os_rng() yields a generator identified by the entropy request that produced it (distinct requests, "
+                           "distinct generators, up to the OS); seed_from_u64 is identified with its seed"],
+              out_of_scope=["statistical independence of the streams"])
+    new = eng.find_fn("NUTS::new")
+    sset = eng.find_fn("NUTS::set_seed")
+
+    def run(ctx):
+        s = ctx.fresh_int("seed")
+        ctx.assume(z3.And(s >= 0, s <= 2 ** 64 - 1))
+        init = RVec([RVec([ctx.fresh_real("p")]) for _ in range(n)])
+        me = eng.call_fn(new, [Opaque("target"), init, Num(Fraction(4, 5))])
+        ids = [c.get("rng").fields[0] for c in me.get("chains").items]
+        seeded = eng.call_fn(sset, [me, s])
+        seeds = [c.get("rng").fields[0] for c in seeded.get("chains").items]
+        return ids, seeds
+    for ctx, res in eng.explore(run):
+        u.paths += 1
+        if isinstance(res, Exception):
+            u.holds(ctx, "building and seeding a multi-chain NUTS sampler does not fail", False, lambda m: replay_nuts_seed(), repr(res)[:100])
+            continue
+        ids, seeds = res
+        what = [getattr(x, "what", repr(x)) for x in ids]
+        u.holds(ctx, "unseeded NUTS chains each get a generator from their own OS-entropy request (no two chains share one)",
+                len(set(what)) == len(what) and all("os entropy request" in w for w in what), lambda m: replay_nuts_unseeded(), str(what))
+        ok = all(not isinstance(x, Opaque) for x in seeds)
+        if ok:
+            conj = [zi(seeds[i]) != zi(seeds[j]) for i in range(len(seeds)) for j in range(i + 1, len(seeds))]
+            u.holds(ctx, "seeded NUTS chains have pairwise distinct generators", z3.And(conj), lambda m: replay_nuts_seed())
+        else:
+            u.holds(ctx, "set_seed reseeds every chain", False, lambda m: replay_nuts_seed())
+    u.done()
+
+
+def replay_nuts_unseeded():
+    nat = native({"case": "nuts_unseeded_distinct"})
+    bad = [p for p, r in nat.items() if isinstance(r, dict) and (r.get("panic") or r.get("distinct") is False)]
+    return bool(bad), {"case": {"case": "nuts_unseeded_distinct"}, "native": nat, "reproduced_in": bad}
